@@ -73,9 +73,24 @@ def spaces(tier, seed):
                                 packed.append({"kind": "packed", "rows": rows, "cols": cols, "type": t, "inv": inv,
                                                "nd": nd, "axis": axis, "conf": conf, "na": nalpha,
                                                "off": (seed * 31 + k) % 97})
+    machine = []
+    k = -1
+    for method, w in (("sad", 1), ("sad", 3), ("census", 3), ("zncc", 3), ("ssd", 1)):
+        for subpix in (1, 2, 4):
+            for form in ("scalar", "grid"):
+                for mask in ("none", "left", "right"):
+                    for inv in (-9999, "NaN"):
+                        k += 1
+                        if tier == "quick" and (k + seed) % 2:
+                            continue
+                        machine.append({"kind": "machine", "method": method, "w": w, "subpix": subpix, "form": form,
+                                        "mask": mask, "inv": inv, "cbca": (k // 2) % 3 == 0, "seed": seed,
+                                        "val": (k // 3) % 2 == 0})
     return [
         {"name": "single-pixel volumes, all vectors", "level": 0, "cases": singles},
         {"name": "position-coded packed volumes over the block grid", "level": 1, "cases": packed},
+        {"name": "real cost volumes through the machine (masks, per-pixel interval grids, subpix, left and right pass)",
+         "level": 2, "cases": machine},
     ]
 
 
@@ -180,7 +195,90 @@ def _is_tie(vec, t):
     return int((f == b).sum()) > 1
 
 
+def run_machine(case):
+    """
+    the disparity step inside a real run: the cost volume it receives (snapshot after the previous step) must give,
+    by the same reference, the map it returns; and - what the synthetic spaces can only see through NaN costs - the
+    chosen disparity must lie inside the pixel's REQUESTED interval (the input grids)
+    """
+    from mc.drivers import pipeline as P  # pylint: disable=import-outside-toplevel
+
+    ny, nx = 9, 13
+    left, right = D.stereo_pair(ny, nx, shift=1, seed=case["seed"] + 31)
+    rr, cc = np.meshgrid(np.arange(ny), np.arange(nx), indexing="ij")
+    if case["form"] == "scalar":
+        disp = (-2, 2)
+        gmin = np.full((ny, nx), -2.0)
+        gmax = np.full((ny, nx), 2.0)
+    else:
+        gmin = (-2 + (rr + cc) % 3).astype(np.float32)
+        gmax = (gmin + (rr * 2 + cc) % 3).astype(np.float32)
+        disp = (gmin, gmax)
+    lm = rm = None
+    if case["mask"] in ("left", "right"):
+        m = np.zeros((ny, nx), dtype=np.int16)
+        m[2, 3] = 1
+        m[5, 8] = 2
+        m[6, 1] = 2
+        lm, rm = (m, None) if case["mask"] == "left" else (None, m)
+    L = D.image(left, disp=disp, msk=lm)
+    rdisp = None
+    if case["form"] == "grid":
+        rdisp = ((-gmax[:, ::-1]).astype(np.float32), (-gmin[:, ::-1]).astype(np.float32))
+    R = D.image(right, disp=rdisp, msk=rm)
+    steps = [("matching_cost", P.mc(case["method"], case["w"], case["subpix"]))]
+    if case["cbca"]:
+        steps.append(("aggregation", P.CBCA))
+    steps.append(("disparity", {"disparity_method": "wta", "invalid_disparity": case["inv"]}))
+    if case["val"]:
+        steps.append(("validation", P.CROSS))
+    obs = P.run_observed(L, R, P.name_steps(steps), snapshot=("cv", "disp"))
+    if obs.error:
+        return {"n": 1, "sigs": [], "viol": [], "trivial": 1}  # not this property's business
+    viol = []
+    sigs = []
+    idx = [i for i, st in enumerate(obs.steps) if st["step"] == "disparity"][0]
+    before, after = obs.steps[idx - 1], obs.steps[idx]
+    t = before["left_cv"].attrs["type_measure"]
+    for side, grid in (("left", (gmin, gmax)), ("right", None)):
+        cvb = before[f"{side}_cv"]
+        if cvb is None or "cost_volume" not in cvb or (side == "right" and not case["val"]):
+            continue
+        costs = cvb["cost_volume"].data
+        disps = cvb.coords["disp"].data
+        out = after[f"{side}_disp"]
+        sub = []
+        _check(case, costs, disps, t, case["inv"], cvb, after[f"{side}_cv"], out, sub)
+        for v in sub:
+            v["key"] = v["key"].replace("C03/", "C03/machine-" + side + "/", 1)
+        viol += sub
+        got = out["disparity_map"].data
+        has = ~np.isnan(costs).all(axis=2)
+        if grid is not None:
+            lo, hi = grid
+            outside = has & ((got < lo - 1e-6) | (got > hi + 1e-6))
+            if outside.any():
+                r, c = np.argwhere(outside)[0]
+                viol.append({"clause": "inside-requested-interval", "key": f"C03/inside-requested-interval/machine-{side}",
+                             "detail": f"pixel ({r},{c}) got disparity {got[r, c]} outside its requested interval "
+                                       f"[{lo[r, c]}, {hi[r, c]}] ({case})"})
+        step = 1.0 / case["subpix"]
+        offgrid = has & (np.abs(np.round(got / step) * step - got) > 1e-6)
+        if offgrid.any():
+            r, c = np.argwhere(offgrid)[0]
+            viol.append({"clause": "sampled-disparity", "key": f"C03/sampled-disparity/machine-{side}",
+                         "detail": f"pixel ({r},{c}) got {got[r, c]}, not a multiple of 1/{case['subpix']} ({case})"})
+        if np.isnan(costs).any() and np.isfinite(costs).any():
+            import hashlib  # pylint: disable=import-outside-toplevel
+
+            sigs.append(f"m|{side}|{case['method']}|{case['w']}|{case['subpix']}|{case['form']}|{case['mask']}|"
+                        + hashlib.sha1(np.nan_to_num(got, nan=-7777.0).tobytes()).hexdigest()[:10])
+    return {"n": max(1, len(sigs)), "sigs": sigs, "viol": viol[:6], "trivial": 0 if sigs else 1}
+
+
 def run_case(case):
+    if case["kind"] == "machine":
+        return run_machine(case)
     alpha = [np.nan, 0.0, 1.0, 2.0, 3.0][: case["na"]]
     nd, t, inv = case["nd"], case["type"], case["inv"]
     vecs = vectors(nd, alpha)
